@@ -243,7 +243,15 @@ def check(ck):
         rs = ck.repo.func("code_hash.resolve_to_symbolic_names").nested.get("resolve_to_symbol")
         ck.need(rs is not None, "resolve_to_symbolic_names.resolve_to_symbol not found")
         rfa = FA(ck, rs)
-        cut = [s for s in rfa.stmts(ast.Assign) if "q_name.find(%r)" % d_version in A.norm(s.value) and "rfind" not in A.norm(s.value)]
+        # X = X[0:X.find('#')] ... for a local X holding the versioned qualified name
+        cut = []
+        for s_ in rfa.stmts(ast.Assign):
+            if len(s_.targets) == 1 and isinstance(s_.targets[0], ast.Name):
+                x_ = s_.targets[0].id
+                if "%s.find(%r)" % (x_, d_version) in A.norm(s_.value) and "rfind" not in A.norm(s_.value) and any(
+                        isinstance(n_, ast.Subscript) and A.norm(n_.value) == x_ and isinstance(n_.slice, ast.Slice) and n_.slice.upper is not None
+                        and A.norm(n_.slice.upper) == "%s.find(%r)" % (x_, d_version) for n_ in ast.walk(s_.value)):
+                    cut.append(s_)
         ck.ob(R2, rfa.key(None, "cut-first-hash"), len(cut) == 1, "the symbolic name is cut at the first %r" % d_version if len(cut) == 1 else
               "the symbolic dependency name is not cut at the first %r (a version containing it would leak into the name)" % d_version, rfa.where())
         wc = [s for s in ini.stmts(ast.Assign) if any(A.dotted(t) == "self._qualified_name_without_cluster" for t in s.targets)]
